@@ -1,7 +1,7 @@
 // SPDX-License-Identifier: BSL-1.1 OR Apache-2.0
 use std::{
     collections::HashSet,
-    sync::Arc,
+    sync::{Arc, Mutex, MutexGuard, PoisonError},
     time::{SystemTime, UNIX_EPOCH},
 };
 
@@ -14,6 +14,17 @@ use crate::{
     metadata::GcStats,
     streaming::{get_int, get_pointers},
 };
+
+/// Serialises every read-modify-write of chunk reference counts and every decision to
+/// delete a chunk. Reference counts live in the store as plain fields, so the writer's
+/// "exists? increment : create", the artifact delete's decrements, the collector's
+/// "zero refs? delete" and repair's recount must not interleave with each other.
+/// The lock is never held across an `.await`.
+static REFS_LOCK: Mutex<()> = Mutex::new(());
+
+pub(crate) fn lock_refs() -> MutexGuard<'static, ()> {
+    REFS_LOCK.lock().unwrap_or_else(PoisonError::into_inner)
+}
 
 /// Background garbage collector for orphaned chunks.
 pub struct GarbageCollector {
@@ -83,6 +94,9 @@ impl GarbageCollector {
         let chunk_keys = self.store.scan("_blob:chunk:");
 
         for chunk_key in chunk_keys.into_iter().take(self.config.batch_size) {
+            // Check and delete under the refcount lock: a writer may be deduplicating
+            // onto this very chunk.
+            let _refs = lock_refs();
             if let Ok(tensor) = self.store.get(&chunk_key) {
                 let refs = get_int(&tensor, "_refs").unwrap_or(0);
                 let created =
@@ -114,6 +128,8 @@ impl GarbageCollector {
     /// Returns an error if chunk deletion fails.
     #[allow(clippy::unused_async)]
     pub async fn full_gc(&self) -> Result<GcStats> {
+        let _refs = lock_refs();
+
         // 1. Build reference set from all artifacts
         let mut referenced: HashSet<String> = HashSet::new();
 
@@ -169,6 +185,8 @@ impl GarbageCollector {
 
 /// Decrement chunk reference count. Used when deleting artifacts.
 ///
+/// The caller must hold [`lock_refs`].
+///
 /// # Errors
 ///
 /// Returns an error if the store operation fails.
@@ -186,6 +204,8 @@ pub fn decrement_chunk_refs(store: &TensorStore, chunk_key: &str) -> Result<()> 
 }
 
 /// Increment chunk reference count. Used for deduplication.
+///
+/// The caller must hold [`lock_refs`].
 ///
 /// # Errors
 ///
